@@ -60,8 +60,9 @@ pub trait Adapter: 'static + Sized {
     type F: PrimeField + Absorb;
     type Pt: Clone + Ord + Debug + Hash + Sync + Send;
     type P: Polynomial<Self::F, Point = Self::Pt> + Clone + Send + Sync + 'static;
-    type UP: Clone + Send + Sync + 'static;
-    type PC: PolynomialCommitment<Self::F, Self::P, UniversalParams = Self::UP>;
+    type UP: Clone + Send + Sync + 'static + CanonicalSerialize + ark_serialize::CanonicalDeserialize;
+    type Pr: Clone + CanonicalSerialize + ark_serialize::CanonicalDeserialize;
+    type PC: PolynomialCommitment<Self::F, Self::P, UniversalParams = Self::UP, Proof = Self::Pr>;
     const NAME: &'static str;
     /// "uni" | "mv" | "ml"
     const FAMILY: &'static str;
@@ -386,6 +387,7 @@ impl Adapter for Marlin {
     type Pt = Fr381;
     type P = UniPoly<Fr381>;
     type UP = <MarlinPC as PolynomialCommitment<Fr381, UniPoly<Fr381>>>::UniversalParams;
+    type Pr = <MarlinPC as PolynomialCommitment<Fr381, UniPoly<Fr381>>>::Proof;
     type PC = MarlinPC;
     const NAME: &'static str = "marlin";
     const FAMILY: &'static str = "uni";
@@ -489,6 +491,7 @@ impl Adapter for Sonic {
     type Pt = Fr381;
     type P = UniPoly<Fr381>;
     type UP = <SonicPC as PolynomialCommitment<Fr381, UniPoly<Fr381>>>::UniversalParams;
+    type Pr = <SonicPC as PolynomialCommitment<Fr381, UniPoly<Fr381>>>::Proof;
     type PC = SonicPC;
     const NAME: &'static str = "sonic";
     const FAMILY: &'static str = "uni";
@@ -531,6 +534,7 @@ impl Adapter for Ipa {
     type Pt = FrEd;
     type P = UniPoly<FrEd>;
     type UP = <IpaPC as PolynomialCommitment<FrEd, UniPoly<FrEd>>>::UniversalParams;
+    type Pr = <IpaPC as PolynomialCommitment<FrEd, UniPoly<FrEd>>>::Proof;
     type PC = IpaPC;
     const NAME: &'static str = "ipa";
     const FAMILY: &'static str = "uni";
@@ -668,6 +672,7 @@ impl Adapter for Pst13 {
     type Pt = Vec<Fr381>;
     type P = MvPoly<Fr381>;
     type UP = <Pst13PC as PolynomialCommitment<Fr381, MvPoly<Fr381>>>::UniversalParams;
+    type Pr = <Pst13PC as PolynomialCommitment<Fr381, MvPoly<Fr381>>>::Proof;
     type PC = Pst13PC;
     const NAME: &'static str = "pst13";
     const FAMILY: &'static str = "mv";
@@ -769,6 +774,7 @@ impl Adapter for Hyrax {
     type Pt = Vec<FrEd>;
     type P = MlPoly<FrEd>;
     type UP = <HyraxPCT as PolynomialCommitment<FrEd, MlPoly<FrEd>>>::UniversalParams;
+    type Pr = <HyraxPCT as PolynomialCommitment<FrEd, MlPoly<FrEd>>>::Proof;
     type PC = HyraxPCT;
     const NAME: &'static str = "hyrax";
     const FAMILY: &'static str = "ml";
@@ -877,6 +883,7 @@ macro_rules! lincode_adapter {
             type Pt = $pt;
             type P = $p;
             type UP = <$pc as PolynomialCommitment<Fr381, $p>>::UniversalParams;
+            type Pr = <$pc as PolynomialCommitment<Fr381, $p>>::Proof;
             type PC = $pc;
             const NAME: &'static str = $sname;
             const FAMILY: &'static str = $fam;
